@@ -947,6 +947,12 @@ class SMHooks(NAHooks, OpHooks):
     def on_name(self, interp, name):
         if name == 'complex':
             return Builtin('complex', lambda v=0: PA.ired(to_rat(v)))
+        if name == 'abs' and getattr(self, 'signs', None) is not None:
+            def ab(v):
+                if is_scalar(v) and not isinstance(v, Opaque):
+                    return PA.abs_nf(PA.ired(to_rat(v)), self.signs)
+                return interp.py_builtin('abs', [v], {}, None, None, None)
+            return Builtin('abs', ab)
         if name == 'float':
             def fl(v=0):
                 if isinstance(v, str) and v.strip().lstrip('+-').lower() in (
